@@ -170,6 +170,17 @@ var orderProbes = []struct{ src, want string }{
 	{"f(                    kx: t(1),\n kx: t(2),\n        ky: t(3))", "1 2 3"},
 	{"({|kx: 0, ky: 0| [kx, ky]}(          kx: 1,\n kx: 2,\n   ky: 3)).p", "[1, 3]"},
 	{"{|kx: t(1),\n ky: t(2),\n     kz: t(3)| 0}", "1 2 3"},
+	// the same literal evaluated several times (a function called twice, a chain body): every evaluation evaluates
+	// every part again, with the values of that time
+	{"g := {|k| [10, 20, 30, 40, 50, 60][::t(k)]}\ng(2).p\ng(3).p", "2 [10, 30, 50] 3 [10, 40]"},
+	{"g := {|k| [1, (0:12:t(k))]}\ng(2).p\ng(3).p", "2 [1, (0:12:2)] 3 [1, (0:12:3)]"},
+	{"g := {|k| [t(k), [t(k + 1)], (t(k + 2):9)]}\ng(1).p\ng(5).p", "1 2 3 [1, [2], (3:9:nil)] 5 6 7 [5, [6], (7:9:nil)]"},
+	{"[2, 3]@{|k| [10, 20, 30, 40, 50, 60][::t(k)]}.p", "2 3 [[10, 30, 50], [10, 40]]"},
+	{"g := {|k| {a: [t(k)], b: \"s#{t(k + 1)}\"}}\ng(1).p\ng(7).p", "1 2 {\"a\": [1], \"b\": \"s2\"} 7 8 {\"a\": [7], \"b\": \"s8\"}"},
+	{"g := {|k| %{1: [t(k)]}}\ng(1).p\ng(7).p", "1 %{1: [1]} 7 %{1: [7]}"},
+	{"g := {|k| \"abcdefg\"[t(k):]}\ng(2).p\ng(5).p", "2 cdefg 5 fg"},
+	{"g := {|k| [[1, 2], [3, 4]][t(k)][t(0)]}\ng(0).p\ng(1).p", "0 0 1 1 0 3"},
+	{"i := 0\ng := {|| [i, [i], (i:i + 1)]}\ng().p\ni := 5\ng().p", "[0, [0], (0:1:nil)] [5, [5], (5:6:nil)]"},
 	{"g := {|x, y| [x, y]}\n1.^g(t(8))", "8"},
 	{"g := {|x, y| [x, y]}\nt(1).^g", "1"},
 }
@@ -520,6 +531,11 @@ func layoutProbes(c *Ctx) {
 		dp := []string{}
 		for j, k := 0, 2+c.Rng.Intn(3); j < k; j++ {
 			dp = append(dp, fmt.Sprintf("%s: %d", dn[c.Rng.Intn(len(dn))], j))
+		}
+		if c.Rng.Intn(3) == 0 {
+			// str keys that would print alike under a careless escaping (a control character / its backslash spelling)
+			body = append(body, "o3 := {\"a\\nb\": 1, `a\\nb`: 2, \"t\\tx\": 3, `t\\tx`: 4, \"q\": 5}\no3.p\no3.repr.p\no3.S.p\n[o3].p\no3.keys.p\n\"#{o3}\".p",
+				"m4 := %{\"a\\nb\": 1, `a\\nb`: 2, \"r\\rx\": 3, `r\\rx`: 4}\nm4.p\nm4.repr.p\nm4.keys.p")
 		}
 		if c.Rng.Intn(2) == 0 {
 			body = append(body, "m3 := %{"+strings.Join(ap, ", ")+"}\nm3.p\nm3.S.p\nm3.repr.p\n[m3].p\n{a: m3}.p",
